@@ -49,7 +49,7 @@ class Net(nn.Module):
         elif a == "conv":
             self.c = nn.Conv1d(I, H, kernel_size=2, bias=bias, dtype=F64)
             self.l2 = nn.Linear(H * (spec["T"] - 1), O, bias=bias, dtype=F64)
-        elif a == "ln":
+        elif a in ("ln", "lnre"):
             self.l1 = nn.Linear(I, H, bias=bias, dtype=F64)
             self.n = nn.LayerNorm(H, dtype=F64)
             self.l2 = nn.Linear(H, O, bias=bias, dtype=F64)
@@ -94,6 +94,8 @@ class Net(nn.Module):
             return self.l2(self.act(h).flatten(1))
         if a in ("ln", "bn"):
             return self.l2(self.act(self.n(self.l1(x))))
+        if a == "lnre":   # ONE LayerNorm module applied twice (a layer without a ghost norm sampler, reused in the forward pass)
+            return self.l2(self.act(self.n(self.act(self.n(self.l1(x))))))
         if a == "tied":
             return self.l2(self.act(self.l1(self.act(self.l1(x)))))
         raise ValueError(a)
@@ -123,7 +125,7 @@ class PerSampleLoss(nn.Module):
 
 
 def gen_spec(rng, archs=None, ghost_safe=False):
-    arch = rng.choice(archs or ["mlp", "seq", "seq4", "lin", "emb", "embseq", "conv", "ln", "gn"])
+    arch = rng.choice(archs or ["mlp", "seq", "seq4", "lin", "emb", "embseq", "conv", "ln", "gn", "lnre"])
     s = {
         "arch": arch,
         "I": rng.randint(2, 4),
@@ -148,7 +150,7 @@ def gen_spec(rng, archs=None, ghost_safe=False):
 
 def input_rank(spec):
     a = spec["arch"]
-    return {"mlp": 2, "seq": 3, "seq4": 4, "lin": spec.get("rank", 2), "emb": 2, "embseq": 2, "conv": 3, "ln": 2, "gn": 3, "bn": 2, "tied": 2}[a]
+    return {"mlp": 2, "seq": 3, "seq4": 4, "lin": spec.get("rank", 2), "emb": 2, "embseq": 2, "conv": 3, "ln": 2, "lnre": 2, "gn": 3, "bn": 2, "tied": 2}[a]
 
 
 def gen_data(spec, n, rng):
@@ -158,7 +160,7 @@ def gen_data(spec, n, rng):
     sc = spec.get("scale", 1.0)
     if a in ("emb", "embseq"):
         x = torch.randint(0, spec["V"], (n, T), generator=g)
-    elif a in ("mlp", "ln", "bn", "tied") or (a == "lin" and spec.get("rank", 2) == 2):
+    elif a in ("mlp", "ln", "lnre", "bn", "tied") or (a == "lin" and spec.get("rank", 2) == 2):
         x = torch.randn(n, I, generator=g, dtype=F64) * sc
     elif a == "seq" or (a == "lin" and spec.get("rank") == 3):
         x = torch.randn(n, T, I, generator=g, dtype=F64) * sc
